@@ -236,6 +236,7 @@ def run(ctx):
             cases.append(dict(traits=[[0, d], [1, ["DInt"]]], ops=[["Attr", [[0, v]]]]))
     for c in cases[:2] + cases[-2:]:
         ctx.sample(c)
+    obs = None
     rc, envd, err = ctx.run_driver("c01_driver.py", [], args=("--env",))
     if rc != 0 or not envd:
         ctx.fail("harness/env", "class table could not be computed: " + err[-400:], dict(error=err[-2000:]), no_input=True)
@@ -245,7 +246,7 @@ def run(ctx):
                    check_obs=check_obs, sanitize=(ctx.tier == "thorough"), shard=250)
     for c, o in zip(cases, obs or []):          # an assignment that changes the assigned value itself
         for i, st in enumerate(o["steps"]):
-            if st.get("mut"):
+            if st.get("mut") and sum(1 for x in ctx.violations if x[0].startswith("input-mutated")) < 5:
                 how, d, v = _first(c, i)
                 ctx.fail("input-mutated/%s/%s/%s" % (how, pv.shape(d), pv.vshape(v)),
                          "step %d (%s): the assigned value %s was MUTATED by the assignment to %s" % (
